@@ -291,10 +291,41 @@ var hashioImpl = map[string]core.Adapter{
 		if err2 := w.Close(); err2 != nil {
 			return "close-not-idempotent"
 		}
+		verdict := "accept"
 		if err1 != nil {
-			return "reject"
+			verdict = "reject"
 		}
-		return "accept"
+		// history: the verdict on this file does not depend on what happens to other verifiers -
+		// one of the same algorithm that is finished and still written to (the rest of a body
+		// drained through an io.TeeReader after Close) while this one is open
+		for round := 0; round < 6; round++ {
+			entry := control.FileHash{Algorithm: core.MustUnHex(a[0]), Hash: core.MustUnHex(a[1])}
+			prev, err := entry.Verifier()
+			if err != nil {
+				break
+			}
+			prev.Write([]byte("an earlier file"))
+			prev.Close()
+			cur, err := entry.Verifier()
+			if err != nil {
+				return "verifier-refused-the-second-time"
+			}
+			half := len(data) / 2
+			cur.Write(data[:half])
+			prev.Write([]byte("the rest of the earlier body, drained after Close"))
+			if round%2 == 1 {
+				prev.Write(data[half:]) // just what the open one still lacks
+			}
+			cur.Write(data[half:])
+			got := "accept"
+			if cur.Close() != nil {
+				got = "reject"
+			}
+			if got != verdict {
+				return "history-dependent: alone " + verdict + ", next to a finished verifier that is still written to " + got
+			}
+		}
+		return verdict
 	},
 	// law: entries parsed from Checksums-Sha256 / Checksums-Sha512 (directly and through the
 	// best-checksum selector) accept exactly the content whose digest they record
